@@ -746,3 +746,6 @@ add("C09", "repo-manager-remembers-last-store", "codemodder/project_analysis/pyt
 add("C09", "apply-skips-files-failed-earlier", BC,
     [("        process_file = functools.partial(", "        files_to_analyze = [p for p in files_to_analyze if p not in context.get_failed_files()]\n        process_file = functools.partial(")],
     "fire", "R-RUNWIDE-STATE", "get_failed_files")
+add("C01", "timeout-appended-where-rule-allows-it", "core_codemods/add_requests_timeouts.py",
+    [("            - pattern-not: requests.$CALL(..., timeout=$TIMEOUT, ...)\n", "            - pattern-not: requests.$CALL(..., timeout=$TIMEOUT, verify=False, ...)\n")],
+    "fire", "R-NO-DUP-KEYWORD", "add-requests-timeouts")
